@@ -23,6 +23,7 @@ class Path:
         self.end = None      # 'return' | 'diverge' | 'loop' | 'unreachable'
         self.forks = []      # (bb, outcome) decided by forking (unknown switches)
         self.writes = []     # (bb, place_str, abstract value)
+        self.store = None    # abstract store at the return
     def called(self, *pats):
         return [c for (_, c) in self.calls if c.is_(*pats)]
 
@@ -147,7 +148,7 @@ class Walker:
             if k in ('drop', 'assert'):
                 b = t['t']; continue
             if k == 'return':
-                path.ret = store.get(0, UNKNOWN); path.end = 'return'; self.paths.append(path); return
+                path.ret = store.get(0, UNKNOWN); path.end = 'return'; path.store = store; self.paths.append(path); return
             if k in ('unreachable', 'resume', 'terminate', 'other'):
                 path.end = 'unreachable'; self.paths.append(path); return
             if k in ('call', 'tailcall'):
